@@ -170,7 +170,7 @@ theorem overlayDocs_spec (l r : AMap (AMap Node)) (hl : AMap.Sorted l) (hr : AMa
       else none := get?_overlayDocs l r hl hr n
 
 /-- Determinism at full strength: for documents constructible through the API (`Valid`) over
-    path-safe keys (`SafeKeys`: non-empty, without `.` and `[`), whatever order Go ranges over its
+    path-safe keys (`SafeKeysD`: non-empty, without `.` and `[`), whatever order Go ranges over its
     maps in — both loops of diff() and every flattenContainer, at every depth — sorting what was
     emitted gives exactly `diff l r`, ties included. -/
 theorem diff_det (l r : AMap Node) (hl : Good (.cont l)) (hr : Good (.cont r)) (ms : List Mod)
@@ -265,7 +265,7 @@ theorem nonvacuous_overlay :
 
 theorem nonvacuous_good : Good (.cont exL) ∧ Good (.cont exR) := by
   refine ⟨⟨nonvacuous_valid.1, ?_⟩, ⟨nonvacuous_valid.2, ?_⟩⟩ <;>
-    simp only [exL, exR, Node.SafeKeys, SafeKeysKvs, SafeKeysList, SafeKey] <;> decide +kernel
+    simp only [exL, exR, Node.SafeKeysD, SafeKeysKvs, SafeKeysList, SafeKeyD] <;> decide +kernel
 
 /-- the tie on `k` (indices 4 and 5 of `diff exL exR`): Delete first, then the Add -/
 theorem nonvacuous_tie :
